@@ -689,14 +689,22 @@ func flushClasses(hs []hdr) []string {
 	return out
 }
 
-// extractAndCheck runs the extractor on raw archive bytes inside sb and applies the oracle.
+// extractAndCheck runs a fresh extractor on raw archive bytes inside sb and applies the oracle.
 func extractAndCheck(sb *sandbox, c Case, tarBytes []byte) kit.Result {
+	res, _ := extractAndCheckWith(sb, &boxotar.Extractor{}, c, tarBytes)
+	return res
+}
+
+// extractAndCheckWith does the same with the Extractor value of the caller (which may have
+// been used for earlier extractions, see reuse_test.go); its Path is set to sb.target, the
+// only thing under the sandbox that is not observed. Also returns the error of Extract.
+func extractAndCheckWith(sb *sandbox, ex *boxotar.Extractor, c Case, tarBytes []byte) (kit.Result, error) {
 	hs := parseHeaders(tarBytes)
 	if ok, why := safeArchive(hs, sb.T); !ok {
-		return kit.Result{Classes: []string{"skipped-unsafe:" + why}}
+		return kit.Result{Classes: []string{"skipped-unsafe:" + why}}, nil
 	}
 	before := sb.snap()
-	ex := &boxotar.Extractor{Path: sb.target}
+	ex.Path = sb.target
 	err := ex.Extract(bytes.NewReader(tarBytes))
 	after := sb.snap()
 	ds := compare(before, after)
@@ -730,9 +738,9 @@ func extractAndCheck(sb *sandbox, c Case, tarBytes []byte) kit.Result {
 		if known {
 			res.Known = "F15"
 		}
-		return res
+		return res, err
 	}
-	return kit.Result{NonTrivial: nt, Classes: cls}
+	return kit.Result{NonTrivial: nt, Classes: cls}, err
 }
 
 func run(c Case) kit.Result {
